@@ -414,13 +414,13 @@ Section EvalR.
   Definition tyval (ty : ty) (r : R) : value R := match ty with TyN => VF r | TyB => VB (truthR r) end.
   Lemma truth_tyval ty r : @truth R NumR (tyval ty r) = truthR r.
   Proof. destruct ty; cbn [tyval]; [apply truth_VF|reflexivity]. Qed.
-  Lemma vn_tyval ty r : is_vn (tyval ty r) = false.
+  Lemma known_tyval ty r : known (tyval ty r) = true.
   Proof. destruct ty; reflexivity. Qed.
-  Lemma ap1_not a : is_vn a = false -> apply1 oracle "np.logical_not" a = Ok (VB (negb (@truth R NumR a))).
+  Lemma ap1_not a : known a = true -> apply1 oracle "np.logical_not" a = Ok (VB (negb (@truth R NumR a))).
   Proof. destruct a; try discriminate; reflexivity. Qed.
-  Lemma ap2_and a b : is_vn a = false -> is_vn b = false -> apply2 oracle "np.logical_and" a b = Ok (VB (@truth R NumR a && truth b)).
+  Lemma ap2_and a b : known a = true -> known b = true -> apply2 oracle "np.logical_and" a b = Ok (VB (@truth R NumR a && truth b)).
   Proof. destruct a, b; try discriminate; reflexivity. Qed.
-  Lemma ap2_or a b : is_vn a = false -> is_vn b = false -> apply2 oracle "np.logical_or" a b = Ok (VB (@truth R NumR a || truth b)).
+  Lemma ap2_or a b : known a = true -> known b = true -> apply2 oracle "np.logical_or" a b = Ok (VB (@truth R NumR a || truth b)).
   Proof. destruct a, b; try discriminate; reflexivity. Qed.
   Lemma eval_denotes_R : forall t ty, typeof true t = Some ty -> defined vars t -> arrays_ok t -> ev t = Ok (tyval ty (denote vars t)).
   Proof.
@@ -433,7 +433,7 @@ Section EvalR.
       specialize (IH tx eq_refl Hdef Hbig). names n; cbn in Hty; try discriminate.
       all: cbn [evaluate]; look; cbn [en_arity en_method]; rewrite IH; cbn [bind].
       + (* ! *) injection Hty as <-. cbn [tyval]. replace (denote vars (FElem1 "!" x)) with (ind (negb (truthR (denote vars x)))) by reflexivity.
-        now rewrite truthR_ind, ap1_not, truth_tyval by apply vn_tyval.
+        now rewrite truthR_ind, ap1_not, truth_tyval by apply known_tyval.
       + destruct tx; cbn in Hty; try discriminate. injection Hty as <-. reflexivity.
       + destruct tx; cbn in Hty; try discriminate. injection Hty as <-. reflexivity.
       + destruct tx; cbn in Hty; try discriminate. injection Hty as <-. reflexivity.
@@ -449,9 +449,9 @@ Section EvalR.
       all: try rewrite (Hmm eq_refl); rewrite ?andb_false_r; cbn [is_builtin_minmax String.eqb Ascii.eqb Bool.eqb orb andb].
       all: set (a := denote vars l) in *; set (b := denote vars r) in *.
       + (* and *) injection Hty as <-. cbn [tyval]. replace (denote vars (FElem2 "and" l r)) with (ind (truthR a && truthR b)) by reflexivity.
-        now rewrite truthR_ind, ap2_and, !truth_tyval by apply vn_tyval.
+        now rewrite truthR_ind, ap2_and, !truth_tyval by apply known_tyval.
       + (* or *) injection Hty as <-. cbn [tyval]. replace (denote vars (FElem2 "or" l r)) with (ind (truthR a || truthR b)) by reflexivity.
-        now rewrite truthR_ind, ap2_or, !truth_tyval by apply vn_tyval.
+        now rewrite truthR_ind, ap2_or, !truth_tyval by apply known_tyval.
       + destruct tl, tr; cbn in Hty; try discriminate. injection Hty as <-. reflexivity.
       + destruct tl, tr; cbn in Hty; try discriminate. injection Hty as <-. reflexivity.
       + destruct tl, tr; cbn in Hty; try discriminate. injection Hty as <-. reflexivity.
